@@ -53,7 +53,24 @@ func validReply(cmd, name, variant string) string {
 			"capabilities": []string{"SIGNATURE_GENERATOR.RAW"}, "supportedContractVersions": []string{"1.0"}}
 		switch {
 		case strings.HasPrefix(variant, "missing-"):
-			delete(m, strings.TrimPrefix(variant, "missing-"))
+			// a mandatory field is missing: absent, null, or present but EMPTY ("" / [])
+			f := strings.TrimPrefix(variant, "missing-")
+			salt := 0
+			for _, ch := range name {
+				salt += int(ch)
+			}
+			switch salt % 3 {
+			case 0:
+				delete(m, f)
+			case 1:
+				m[f] = nil
+			default:
+				if _, isList := m[f].([]string); isList {
+					m[f] = []string{}
+				} else {
+					m[f] = ""
+				}
+			}
 		case variant == "wrongName":
 			m["name"] = "another-plugin"
 		case variant == "wrongNameCase":
@@ -175,6 +192,24 @@ func runPluginProc() int {
 		if in.Timing != "immediate" {
 			watchdog = time.AfterFunc(ppDeadline+ppBound+2*time.Second, release)
 		}
+		// another, patient caller is already waiting for the same (slow) plugin executable: half of the slow rows.  The call
+		// proper must come back within its own bound all the same.
+		var earlierDone chan struct{}
+		cancelEarlier := func() {}
+		if (in.Timing == "slow" || in.Timing == "slowCancel") && mix(*flagSeed, c.ID, "overlap")%2 == 1 {
+			ctx2, c2 := context.WithTimeout(context.Background(), 30*time.Second)
+			cancelEarlier = c2
+			earlierDone = make(chan struct{})
+			go func() {
+				defer close(earlierDone)
+				_, _ = guarded(func() {
+					if p2, err := plugin.NewCLIPlugin(ctx2, name, path); err == nil {
+						_, _ = p2.GetMetadata(ctx2, &pf.GetMetadataRequest{})
+					}
+				})
+			}()
+			time.Sleep(80 * time.Millisecond)
+		}
 		start := time.Now()
 		panicked, msg := guarded(func() {
 			p, err := plugin.NewCLIPlugin(ctx, name, path)
@@ -199,6 +234,13 @@ func runPluginProc() int {
 			watchdog.Stop()
 		}
 		release()
+		cancelEarlier()
+		if earlierDone != nil {
+			select {
+			case <-earlierDone:
+			case <-time.After(5 * time.Second):
+			}
+		}
 		obs.ElapsedMs = int(elapsed / time.Millisecond)
 		if heavy {
 			obs.PeakMiB = (procStatusKB("VmHWM") - rssBefore) / 1024
